@@ -6,7 +6,13 @@ together with st2tost2::fromRotationMatrix, change_basis (stensor, st2tost2) and
 computeIsotropicStiffnessTensor / computeOrthotropicStiffnessTensor in every modelling hypothesis.  Coq proves that they are
 Q^T e Q, Q s Q^T, the fourth-order rotation in index notation, hypothesis consistency, sigma_zz = 0 in plane stress, isotropy.
 The same code instantiated with double is compared with the traced DAG (agreement) and with an independent Python statement
-of each property (failing-input search)."""
+of each property (failing-input search).
+(c) PROOF on a generated behaviour class: the PLANESTRESS and TRIDIMENSIONAL classes generated for mfront/C44IsoElastic.mfront
+(StandardElasticity brick, @DSL Implicit) are instantiated with Sym (trace_ps.cxx): residual (feel, fetozz), jacobian, final stress;
+Coq: root of the axial residual <-> sigma_zz = 0, the root is the 3D response at the reported axial strain and the plane-stress Hooke law.
+(a)(b) EXECUTION stage (not a proof, gbexec.py + drive.cxx): four generated behaviours (isotropic elastic, Norton, J2 plasticity,
+orthotropic elastic) called through the extern "C" entry points of the generic interface: frame indifference along strain paths,
+generated rotate functions of the orthotropic behaviour, hypothesis consistency, plane stress."""
 import math, os, re, sys
 from concurrent.futures import ThreadPoolExecutor
 import vlib
@@ -15,6 +21,7 @@ from vlib import guarded_main
 HERE = os.path.dirname(os.path.abspath(__file__))
 sys.path.insert(0, HERE)
 from emit import extract_rotation_functions  # noqa: E402
+import gbexec  # noqa: E402
 
 SUPPORT = ["src/Exception/ContractViolation.cxx"]
 SS = {1: 3, 2: 4, 3: 6}
@@ -24,98 +31,7 @@ R2 = math.sqrt(2.0)
 ARRAY_FINDING_KEYS = ("emitted:tg_arrg_pstrain", "emitted:tg_arrf_pstrain")
 
 
-# ------------------------------------------------------------------ independent numerical statements (plain Python)
-def full_s(N, v):
-    m = [[0.0] * 3 for _ in range(3)]
-    for k in range(SS[N]):
-        i, j = PAIRS[k]
-        x = v[k] if i == j else v[k] / R2
-        m[i][j] = m[j][i] = x
-    return m
-
-
-def flat_s(N, m):
-    return [m[i][j] * (1.0 if i == j else R2) for (i, j) in PAIRS[:SS[N]]]
-
-
-def full_r(N, v):
-    I = [[1.0 if i == j else 0.0 for j in range(3)] for i in range(3)]
-    if N == 1:
-        return I
-    if N == 2:
-        for i in range(2):
-            for j in range(2):
-                I[i][j] = v[3 * i + j]
-        return I
-    return [[v[3 * i + j] for j in range(3)] for i in range(3)]
-
-
-def tr(r):
-    return [[r[j][i] for j in range(3)] for i in range(3)]
-
-
-def rot2(r, a):  # r^T a r
-    return [[sum(r[m][i] * r[n][j] * a[m][n] for m in range(3) for n in range(3)) for j in range(3)] for i in range(3)]
-
-
-def full_A(N, v):
-    n = SS[N]
-    c = [[[[0.0] * 3 for _ in range(3)] for _ in range(3)] for _ in range(3)]
-    for I in range(n):
-        for J in range(n):
-            i, j = PAIRS[I]
-            k, l = PAIRS[J]
-            x = v[I * n + J] / ((1.0 if i == j else R2) * (1.0 if k == l else R2))
-            for (a, b) in {(i, j), (j, i)}:
-                for (p, q) in {(k, l), (l, k)}:
-                    c[a][b][p][q] = x
-    return c
-
-
-def flat_A(N, c):
-    n = SS[N]
-    out = []
-    for I in range(n):
-        for J in range(n):
-            i, j = PAIRS[I]
-            k, l = PAIRS[J]
-            out.append(c[i][j][k][l] * (1.0 if i == j else R2) * (1.0 if k == l else R2))
-    return out
-
-
-def rot4(r, c):
-    rg = range(3)
-    return [[[[sum(r[m][i] * r[n][j] * r[p][k] * r[q][l] * c[m][n][p][q] for m in rg for n in rg for p in rg for q in rg)
-               for l in rg] for k in rg] for j in rg] for i in rg]
-
-
-def mul42(c, e):
-    return [[sum(c[i][j][k][l] * e[k][l] for k in range(3) for l in range(3)) for j in range(3)] for i in range(3)]
-
-
-def hooke(E, nu, e):
-    la = nu * E / ((1 + nu) * (1 - 2 * nu))
-    mu = E / (2 * (1 + nu))
-    t = e[0][0] + e[1][1] + e[2][2]
-    return [[la * t * (1.0 if i == j else 0.0) + 2 * mu * e[i][j] for j in range(3)] for i in range(3)]
-
-
-def ortho_compliance_inverse(p, e6):
-    """sigma (Mandel, 6) with S(p) : sigma = e, material axes = storage axes"""
-    E1, E2, E3, n12, n23, n13, G12, G23, G13 = p
-    S = [[1 / E1, -n12 / E1, -n13 / E1], [-n12 / E1, 1 / E2, -n23 / E2], [-n13 / E1, -n23 / E2, 1 / E3]]
-    # solve the 3x3 system by Cramer
-    def det(m):
-        return (m[0][0] * (m[1][1] * m[2][2] - m[1][2] * m[2][1]) - m[0][1] * (m[1][0] * m[2][2] - m[1][2] * m[2][0])
-                + m[0][2] * (m[1][0] * m[2][1] - m[1][1] * m[2][0]))
-    d = det(S)
-    sig = []
-    for k in range(3):
-        M = [row[:] for row in S]
-        for i in range(3):
-            M[i][k] = e6[i]
-        sig.append(det(M) / d)
-    return sig + [2 * G12 * e6[3], 2 * G13 * e6[4], 2 * G23 * e6[5]]
+from tens import full_s, flat_s, full_r, tr, rot2, full_A, flat_A, rot4, mul42, hooke, ortho_compliance_inverse  # noqa: E402,F401
 
 
 def expected(op, x):
@@ -201,10 +117,81 @@ def mfront_generate(c, files, outdir):
         raise vlib.BuildError("mfront failed on %s:\n%s" % (files, (out + err)[-3000:]))
 
 
+def stable_dir(tag, files):
+    """content-addressed copy of generated text under .cache/C44-gen/: the object cache of vlib is keyed by the compiler flags, which
+    contain the include path of the generated code; the per-run scratch directory would defeat it.  files: {relative path: text}"""
+    import hashlib, shutil, uuid
+    h = hashlib.sha256()
+    for k in sorted(files):
+        h.update(k.encode() + b"\0" + files[k].encode() + b"\0")
+    root = os.path.join(vlib.CACHE, "C44-gen")
+    d = os.path.join(root, tag + "-" + h.hexdigest()[:20])
+    if not os.path.isdir(d):
+        tmp = d + ".tmp" + uuid.uuid4().hex[:8]
+        for k, t in files.items():
+            os.makedirs(os.path.dirname(os.path.join(tmp, k)), exist_ok=True)
+            with open(os.path.join(tmp, k), "w") as f:
+                f.write(t)
+        try:
+            os.rename(tmp, d)
+        except OSError:
+            shutil.rmtree(tmp, ignore_errors=True)
+    return d
+
+
+def generated_behaviour_sources(c, gdir):
+    """the C++ generated for the four reference behaviours of the execution stage / plane-stress trace, with the two TESTING switches"""
+    files = {}
+    for p in gbexec.PROGRAMS:
+        for rel in ("include/TFEL/Material/%s.hxx" % p, "include/TFEL/Material/%sBehaviourData.hxx" % p,
+                    "include/TFEL/Material/%sIntegrationData.hxx" % p, "include/MFront/GenericBehaviour/%s-generic.hxx" % p,
+                    "src/%s.cxx" % p, "src/%s-generic.cxx" % p):
+            files[rel] = open(os.path.join(gdir, rel)).read()
+    if os.environ.get("VERIF_C44_SIMULATE_FIX_PSJAC"):
+        # what mfront emits with fix_ortho_plane_stress_jacobian.diff (mfront/src/HookeStressPotentialBase.cxx)
+        k = "include/TFEL/Material/C44OrthoElastic.hxx"
+        t = files[k]
+        t2 = re.sub(r"dfetozz_ddeel\(0\)\s*=\s*\(this->(\w+)\(1,0\)\)/\(this->\w+\(1,1\)\);", r"dfetozz_ddeel(0)  = (this->\1(2,0))/(this->\1(2,2));", t)
+        t2 = re.sub(r"dfetozz_ddeel\(1\)\s*=\s*\(this->(\w+)\(2,0\)\)/\(this->\w+\(1,1\)\);", r"dfetozz_ddeel(1)  = (this->\1(2,1))/(this->\1(2,2));", t2)
+        if t2 != t:
+            c.notes.append("TESTING AID ACTIVE: generated C44OrthoElastic.hxx patched as fix_ortho_plane_stress_jacobian.diff would make mfront emit it")
+        files[k] = t2
+    mut = os.environ.get("VERIF_C44_GEN_MUTATION", "")
+    if mut:
+        # '<Behaviour>:<old>=><new>': first occurrence of <old> in the generated header of <Behaviour> (simulated generator defect)
+        name, rest = mut.split(":", 1)
+        old, new = rest.split("=>", 1)
+        k = "include/TFEL/Material/%s.hxx" % name
+        if k not in files or old not in files[k]:
+            raise vlib.BuildError("generated-code mutation: pattern not found in %s" % k)
+        files[k] = files[k].replace(old, new, 1)
+        c.notes.append("TESTING AID ACTIVE: generated header mutated (%s)" % mut)
+    return files
+
+
+def build_driver(c, sdir, flags):
+    """objects of the generated sources with 2 compile jobs at a time (shared machine), then the link through c.cxx (cache hits)"""
+    srcs = [os.path.join(sdir, "src", p + sfx + ".cxx") for p in gbexec.PROGRAMS for sfx in ("", "-generic")]
+    fl = c.cxx_flags() + ["-O1"] + flags
+    with ThreadPoolExecutor(max_workers=2) as ex:
+        list(ex.map(lambda f: c._obj(f, fl), srcs + [os.path.join(HERE, "drive.cxx")]))
+    return c.cxx("drive", ["drive.cxx"] + srcs, gbexec.SUPPORT, flags=flags)
+
+
+def run_ps_tracer(c, sdir, flags):
+    exe = c.cxx("trace_ps", ["trace_ps.cxx", os.path.join(sdir, "src", "C44IsoElastic.cxx")], gbexec.SUPPORT, flags=flags)
+    gen = os.path.join(c.work, "coq", "C44PS_gen.v")
+    os.makedirs(os.path.dirname(gen), exist_ok=True)
+    rc, out, err = c.run([exe, "gen", gen, str(c.seed % 1000003), str(c.pick(200, 3000))], timeout=600)
+    return rc, out, err, gen
+
+
 def main(c):
     gdir = os.path.join(c.work, "gen")
     progs = ["C44Ortho", "C44TwoGradients"]
-    mfront_generate(c, [os.path.join(HERE, "mfront", p + ".mfront") for p in progs], gdir)
+    mfront_generate(c, [os.path.join(HERE, "mfront", p + ".mfront") for p in progs + gbexec.PROGRAMS], gdir)
+    sdir = stable_dir("beh", generated_behaviour_sources(c, gdir))
+    bflags = ["-I" + os.path.join(sdir, "include"), "-I" + os.path.join(os.path.dirname(HERE), "C41")]  # C41: gsym.hxx (prelude of generated-class tracers)
     texts = []
     nfun = 0
     for p in progs:
@@ -226,12 +213,15 @@ def main(c):
             raise vlib.BuildError("emit mutation: pattern not found")
         emitted = emitted.replace(old, new, 1)
         c.notes.append("TESTING AID ACTIVE: emitted text mutated (%s)" % mut)
-    epath = os.path.join(c.work, "emitted.hxx")
-    with open(epath, "w") as f:
-        f.write(emitted)
+    epath = os.path.join(stable_dir("emitted", {"emitted.hxx": emitted}), "emitted.hxx")
     c.log("mfront emitted %d rotation functions for %s" % (nfun, progs))
 
-    exe = c.cxx("trace", ["trace.cxx"], SUPPORT, flags=['-DC44_EMITTED="%s"' % epath])
+    # builds: at most 4 compile jobs at a time (1 + 2 + 1)
+    with ThreadPoolExecutor(max_workers=3) as ex:
+        f_tr = ex.submit(lambda: c.cxx("trace", ["trace.cxx"], SUPPORT, flags=['-DC44_EMITTED="%s"' % epath]))
+        f_drv = ex.submit(build_driver, c, sdir, bflags)
+        f_ps = ex.submit(run_ps_tracer, c, sdir, bflags)
+        exe, drv, (ps_rc, ps_out, ps_err, ps_gen) = f_tr.result(), f_drv.result(), f_ps.result()
     gen = os.path.join(c.work, "coq", "C44_gen.v")
     os.makedirs(os.path.dirname(gen), exist_ok=True)
     ncases = c.pick(120, 2000)
@@ -283,7 +273,38 @@ def main(c):
                           "(1/3 arbitrary 3x3, 1/3 in-plane rotations, 1/3 general rotations), admissible elastic constants; "
                           "every RUN compared with a closed-form Python statement (Q^T e Q, Q s Q^T, index-notation rotation, Hooke, inverse of the documented compliance)")
 
+    # ---- (c) tracer of the generated plane-stress class: agreement Sym vs double
+    ps_ok = ps_rc == 0
+    if not ps_ok:
+        c.report("trace:pstress-class", "tracer of the generated C44IsoElastic classes failed (the generated class no longer instantiates / runs with Sym): "
+                 + ps_err[-600:], {"stderr": ps_err[-3000:]}, False)
+    else:
+        for l in ps_out.splitlines():
+            t = l.split()
+            if t and t[0] == "AGREE":
+                kv = dict(x.split("=") for x in t[3:])
+                c.count(int(kv["n"]), ("agree", "ps", t[2]))
+                if int(kv["bad"]) != 0 or int(kv["n"]) == 0:
+                    ps_ok = False
+                    c.report("agree:ps:" + t[2], "traced DAG and double instantiation of the generated class disagree (or no case ran): " + l, {"line": l, "seed": c.seed}, False)
+        c.trusted("props/C41/gsym.hxx prelude (std::is_arithmetic<Sym> etc.) and `#define private public` around the generated header (trace_ps.cxx)")
+
+    # ---- (a)(b) EXECUTION stage through the generic interface (not a proof)
+    try:
+        st = gbexec.run(c, drv, ["iso", "norton", "plastic", "ortho"], c.pick(2, 12))
+        c.notes.append("EXECUTION stage (not a proof): %d paths / calls of the generated extern \"C\" entry points (C44IsoElastic, C44Norton, C44Plastic, "
+                       "C44OrthoElastic in Tridimensional, PlaneStrain, GeneralisedPlaneStrain, Axisymmetrical, PlaneStress), %d comparisons with independent "
+                       "Python statements, %d steps with plastic flow; worst observed difference / tolerance per class: %s" % (
+                           st["paths"], st["comparisons"], st["plastic_steps"], {k: float("%.2g" % v) for k, v in st["worst_over_tolerance"].items()}))
+    except (RuntimeError, AssertionError, IndexError, ValueError) as e:
+        c.report("exec:driver", "execution driver failed or printed something unexpected: %s" % (str(e)[-600:],), {"error": str(e)[-3000:]}, False)
+    c.trusted("g++ -O1 on the generated sources, props/C44/drive.cxx (fills mfront_gb_BehaviourData, carries the state from step to step)")
+    c.coverage["rule"] += ("; EXECUTION stage: seeded strain paths (elastic 2 steps, Norton 4 steps of 5 s, plasticity 4 steps up to 0.4% with partial unloading) "
+                           "x seeded rotations (quaternion in 3D, angle about z in plane hypotheses); loadings uniaxial x, equibiaxial, shear xy, random in-plane, random "
+                           "with e_zz in every hypothesis that can represent them; plane stress axial strain re-imposed in generalised plane strain and 3D")
+
     # ---- Coq
+    ps_chain = [ps_gen, "C44PSStatements.v", "C44ProofsPS.v", "Properties_C44_pstress.v"]
     finding = all(k.split(":", 1)[1] in bad_ops for k in ARRAY_FINDING_KEYS)
     common = [gen, "C44Spec.v", "C44Nsatz.v", "C44Tactics.v", "C44Statements.v"]
     r0 = c.coq(common, timeout=900)
@@ -292,8 +313,10 @@ def main(c):
         par = ["C44ProofsA.v", "C44ProofsB.v", "C44ProofsOrth.v"]
         if not finding:
             par.append("C44ProofsArr2.v")
-        with ThreadPoolExecutor(max_workers=len(par)) as ex:
+        with ThreadPoolExecutor(max_workers=4) as ex:
+            f_ps = ex.submit(lambda: c.coq(ps_chain, timeout=900)) if ps_rc == 0 else None
             rs = list(ex.map(lambda f: c.coq([f], timeout=1500), par))
+            r_ps = f_ps.result() if f_ps else None
         results += rs
         if all(r.ok for r in rs):
             last = ["Properties_C44.v", "Properties_C44_arrays_refuted.v" if finding else "Properties_C44_arrays.v"]
@@ -308,6 +331,20 @@ def main(c):
             # the Properties files cannot be compiled: their theorems are undischarged obligations
             txt = open(os.path.join(HERE, "coq", "Properties_C44.v")).read()
             c.coverage["obligations"] += len(re.findall(r"^Theorem ", txt, flags=re.M))
+    else:
+        r_ps = c.coq(ps_chain, timeout=900) if ps_rc == 0 else None
+    if r_ps is None:
+        txt = open(os.path.join(HERE, "coq", "Properties_C44_pstress.v")).read()
+        c.coverage["obligations"] += len(re.findall(r"^Theorem ", txt, flags=re.M))
+    elif not r_ps.ok:
+        # failing-input search for the plane-stress theorems: the execution stage above runs the very same generated class
+        # (keys exec:pstress:iso*, exec:hyp:iso*); if it reported nothing, the broken obligation itself is reported
+        if any(v[0].startswith(("exec:pstress:iso", "exec:pstress-tangent:iso", "exec:frame:iso:pstress")) for v in c.violations):
+            c.notes.append("plane-stress proof obligations failed: %s; concrete failing inputs reported by the execution stage" % [(f[0], f[2]) for f in r_ps.failed])
+            for f in r_ps.failed:
+                c.notes.append("failed: %s line %s %s: %s" % (f[0], f[1], f[2], f[3][-300:]))
+        else:
+            c.coq_failures(r_ps, None)
     if finding:
         c.notes.append("array-rotation defect observed: Properties_C44_arrays_refuted.v selected (see known_findings.json)")
     for r in results:
